@@ -1,9 +1,11 @@
 import NemoVerif.Drive.Common
 import NemoVerif.Models.Stream
 import NemoVerif.Models.StreamAsIs
+import NemoVerif.Models.StreamUsage
+import NemoVerif.Generated.C18
 
 namespace NemoVerif.Drive.C18
-open Lean NemoVerif NemoVerif.Drive NemoVerif.Stream NemoVerif.StreamAsIs
+open Lean NemoVerif NemoVerif.Drive NemoVerif.Stream NemoVerif.StreamAsIs NemoVerif.StreamUsage
 
 def strOf (j : Json) : Except String Str := do
   match j with
@@ -55,6 +57,32 @@ def handle (op : String) (j : Json) : Except String Json := do
     let e ← endOfString (← (← j.getObjVal? "end").getStr?)
     let t ← strOf (← j.getObjVal? "text")
     pure (Json.str (String.ofList (spec cfg t e)))
+  | "usage" =>
+    -- {"cfg", "k", "variant": "repaired"|"tree", "direct": bool, "schedules": [[chunks, a, b, endEarly], ...]}
+    let cfg ← cfgOfJson (← j.getObjVal? "cfg")
+    let k ← (← j.getObjVal? "k").getNat?
+    let site : Site := { pfx := cfg.pfx, suffix := cfg.suffix, stop := cfg.stop, k := k }
+    let tree := match j.getObjVal? "variant" with | .ok (.str "tree") => true | _ => false
+    let fx := if tree then NemoVerif.Generated.C18.handlerBuffersFirst else true
+    let sf := if tree then NemoVerif.Generated.C18.stopBeforeDisable else true
+    let direct := match j.getObjVal? "direct" with | .ok (.bool b) => b | _ => false
+    let scheds ← (← (← j.getObjVal? "schedules").getArr?).toList.mapM fun sj => do
+      let a ← sj.getArr?
+      if h : a.size = 4 then do
+        let cs ← (← a[0].getArr?).toList.mapM strOf
+        let x ← a[1].getNat?; let y ← a[2].getNat?; let ee ← a[3].getNat?
+        pure (cs, x, y, ee)
+      else throw "bad schedule"
+    pure (Json.arr (scheds.map (fun (cs, a, b, ee) =>
+      if direct then
+        let h := execOps fx (directOps site cs (String.toList "<again>")) H0
+        Json.mkObj [("items", itemsJson false h.st.out), ("completion", Json.str (String.ofList h.st.completion)),
+          ("finished", Json.bool h.st.finished)]
+      else
+        let h := usageRun fx sf site cs a b ee
+        Json.mkObj [("items", Json.arr ((consumerItems h).map (fun o => match o with | none => Json.null | some c => Json.str (String.ofList c))).toArray),
+          ("completion", Json.str (String.ofList h.st.completion)), ("finished", Json.bool h.st.finished),
+          ("event", Json.bool (eventSetAt fx site cs a))])).toArray)
   | _ => throw s!"unknown op C18.{op}"
 
 end NemoVerif.Drive.C18
